@@ -16,6 +16,7 @@ import (
 	"golang.org/x/tools/go/ssa/ssautil"
 	"os"
 	"sort"
+	"strconv"
 	"strings"
 
 	"golang.org/x/tools/go/ssa"
@@ -82,6 +83,7 @@ type LB struct {
 	Unproved      int
 	UsedContracts map[string]bool
 	curBlock      *ssa.BasicBlock // block of the obligation being proved
+	ovf           bool            // overflow mode: 64-bit +, *, << are linear only when proven not to overflow
 }
 
 // repoLenContracts: len(result #result of f) == integer parameter #param. Each entry is
@@ -180,7 +182,7 @@ func (lb *LB) linOf(v ssa.Value) lin {
 	}
 	switch x := v.(type) {
 	case *ssa.BinOp:
-		if bits, _, ok := intKind(x.Type()); ok && bits < 64 && (x.Op == token.ADD || x.Op == token.MUL || x.Op == token.SHL) {
+		if bits, _, ok := intKind(x.Type()); ok && (bits < 64 || (lb.ovf && x.Op != token.ADD) || (lb.ovf && x.Op == token.ADD && !lb.smallAdd(x))) && (x.Op == token.ADD || x.Op == token.MUL || x.Op == token.SHL) {
 			// arithmetic in a narrow type wraps: linear only when the exact result provably fits the type
 			if !lb.wrapOK(x) {
 				return linVar(lvar{0, v})
@@ -373,18 +375,64 @@ func (lb *LB) wrapOK(x *ssa.BinOp) bool {
 	}
 	ok := false
 	if okExact {
-		hi := int64(1)<<uint(bits) - 1
-		lo := int64(0)
-		if !uns {
-			hi = int64(1)<<uint(bits-1) - 1
-			lo = -hi - 1
+		var hi, lo int64
+		if bits >= 64 {
+			// 64-bit arithmetic (overflow mode): the exact result stays far inside the int64 range
+			// (2^49: every length is below 2^48, and the prover keeps its constants below 2^50)
+			hi, lo = int64(1)<<49, -(int64(1) << 49)
+			if uns {
+				lo = 0
+			}
+		} else {
+			hi = int64(1)<<uint(bits) - 1
+			lo = 0
+			if !uns {
+				hi = int64(1)<<uint(bits-1) - 1
+				lo = -hi - 1
+			}
 		}
 		ok = lb.prove([]cons{le(exact, linConst(hi)), ge(exact, linConst(lo))}, x.Block(), nil, map[lvar]lin{}, 2)
+		if ok && lbDump && strings.Contains(fname(lb.f), lbDumpFn) && x.Op == token.MUL {
+			saved := lbSite
+			lbSite = true
+			dbg("wrapOK re-prove %s upper:", x.Name())
+			r1 := lb.prove([]cons{le(exact, linConst(hi))}, x.Block(), nil, map[lvar]lin{}, 2)
+			dbg("wrapOK re-prove %s upper result %v; block facts:", x.Name(), r1)
+			for _, c := range lb.branchFacts(x.Block()) {
+				dbg("     fact %s <= 0 ne=%v", linString(c.l), c.ne)
+			}
+			if ph, ok := x.X.(*ssa.Phi); ok {
+				if l, ok := lb.inductionUpper(ph); ok {
+					dbg("     inductionUpper %s", linString(l))
+				}
+				for _, c := range lb.loopUpperInvariants(ph) {
+					dbg("     loopUpperInv %s", linString(c.l))
+				}
+				if b, ok := lb.accumBound(ph); ok {
+					dbg("     accumBound %d", b)
+				}
+			}
+			for _, c := range lb.defFacts(lvar{0, x.X}) {
+				dbg("     def(%s) %s <= 0 ne=%v", x.X.Name(), linString(c.l), c.ne)
+			}
+			lbSite = saved
+		}
 	}
 	if ok {
 		lb.side[x] = 2
+		if lbDump && strings.Contains(fname(lb.f), lbDumpFn) {
+			dbg("wrapOK ok in %s: %s = %s exact=%s", fname(lb.f), x.Name(), x.String(), linString(exact))
+			if x.Op == token.MUL {
+				for _, c := range lb.closure(append(lb.branchFacts(x.Block()), ge(exact, linConst(1<<49+1))), map[lvar]lin{}) {
+					dbg("      %s <= 0", linString(c.l))
+				}
+			}
+		}
 	} else {
 		lb.side[x] = 3
+		if lbDump && strings.Contains(fname(lb.f), lbDumpFn) {
+			dbg("wrapOK FAILED in %s: %s = %s (exact known: %v) at %s", fname(lb.f), x.Name(), x.String(), okExact, lb.p.pos(x.Pos()))
+		}
 	}
 	return ok
 }
@@ -698,7 +746,7 @@ func (lb *LB) defFacts(v lvar) []cons {
 		out = append(out, ge(me, linConst(0)))
 		return out
 	case 1:
-		out = append(out, ge(me, linConst(0)))
+		out = append(out, ge(me, linConst(0)), le(me, linConst(1<<48))) // lengths are bounded by the address space
 		switch x := v.v.(type) {
 		case *ssa.Slice:
 			var lo, hi lin
@@ -855,6 +903,12 @@ func (lb *LB) defFacts(v lvar) []cons {
 			}
 		}
 	case *ssa.Phi:
+		if lb.ovf && !isLoopHeader(x.Block()) {
+			out = append(out, lb.joinUpper(x)...)
+		}
+		if b, ok := lb.accumBound(x); ok {
+			out = append(out, ge(me, linConst(0)), le(me, linConst(b)))
+		}
 		if l, ok := lb.inductionLower(x); ok {
 			out = append(out, ge(me, l))
 		} else if isLoopHeader(x.Block()) {
@@ -886,7 +940,7 @@ func (lb *LB) defFacts(v lvar) []cons {
 		if _, name, _, _, ok := bigMethod(x); ok {
 			switch name {
 			case "BitLen":
-				out = append(out, ge(me, linConst(0)))
+				out = append(out, ge(me, linConst(0)), le(me, linConst(1<<40)))
 			case "Sign", "Cmp", "CmpAbs":
 				out = append(out, ge(me, linConst(-1)), le(me, linConst(1)))
 			}
@@ -1155,13 +1209,75 @@ func tighten(c cons) cons {
 	return cons{l: r}
 }
 
-func consKey(c cons) string {
-	vars := make([]string, 0, len(c.l.c))
-	for v, co := range c.l.c {
-		vars = append(vars, fmt.Sprintf("%d:%p:%d", v.kind, v.v, co))
+// interned variable ids (for dedup keys) and stable names (for deterministic tie-breaking)
+var lvarIDs = map[lvar]int{}
+var lvarStable = map[lvar]string{}
+
+func lvarID(v lvar) int {
+	if id, ok := lvarIDs[v]; ok {
+		return id
 	}
-	sort.Strings(vars)
-	return strings.Join(vars, ",") + fmt.Sprintf("|%d", c.l.k)
+	id := len(lvarIDs) + 1
+	lvarIDs[v] = id
+	return id
+}
+
+// stableName: independent of addresses and map order: function, block and instruction index of the definition
+func stableName(v lvar) string {
+	if s, ok := lvarStable[v]; ok {
+		return s
+	}
+	s := ""
+	switch x := v.v.(type) {
+	case ssa.Instruction:
+		fn := ""
+		if x.Parent() != nil {
+			fn = x.Parent().String()
+		}
+		bi, ii := -1, -1
+		if b := x.Block(); b != nil {
+			bi = b.Index
+			for i, in := range b.Instrs {
+				if in == x {
+					ii = i
+					break
+				}
+			}
+		}
+		s = fmt.Sprintf("i|%s|%05d|%05d|%d", fn, bi, ii, v.kind)
+	case *ssa.Parameter:
+		fn := ""
+		if x.Parent() != nil {
+			fn = x.Parent().String()
+		}
+		s = fmt.Sprintf("p|%s|%s|%d", fn, x.Name(), v.kind)
+	default:
+		s = fmt.Sprintf("o|%s|%s|%d", v.v.Name(), v.v.Type().String(), v.kind)
+	}
+	lvarStable[v] = s
+	return s
+}
+
+func consKey(c cons) string {
+	type pr struct {
+		id int
+		co int64
+	}
+	ps := make([]pr, 0, len(c.l.c))
+	for v, co := range c.l.c {
+		ps = append(ps, pr{lvarID(v), co})
+	}
+	sort.Slice(ps, func(i, j int) bool { return ps[i].id < ps[j].id })
+	buf := make([]byte, 0, 16*len(ps)+12)
+	for _, p := range ps {
+		buf = strconv.AppendInt(buf, int64(p.id), 36)
+		buf = append(buf, ':')
+		buf = strconv.AppendInt(buf, p.co, 36)
+		buf = append(buf, ',')
+	}
+	buf = append(buf, '|')
+	buf = strconv.AppendInt(buf, c.l.k, 36)
+	return string(buf)
 }
 
 // infeasible reports whether the conjunction of constraints has no rational solution
@@ -1227,7 +1343,7 @@ func infeasible(cs []cons, limit int) bool {
 			if big[v] {
 				cost += 1 << 20
 			}
-			if bestCost < 0 || cost < bestCost || (cost == bestCost && fmt.Sprintf("%p%d", v.v, v.kind) < fmt.Sprintf("%p%d", best.v, best.kind)) {
+			if bestCost < 0 || cost < bestCost || (cost == bestCost && stableName(v) < stableName(best)) {
 				best, bestCost = v, cost
 			}
 		}
@@ -1480,6 +1596,38 @@ func (lb *LB) proveWith(goals []cons, facts []cons, subst map[lvar]lin, depth in
 					negf = []cons{le(x, linConst(-1)), le(me, linConst(0)), ge(me, linConst(-(k - 1)))}
 				}
 				splits = append(splits, []alt{{pos, subst}, {negf, subst}})
+			}
+		}
+		// control-flow joins without phis on the dominator chain of the obligation (the merge after
+		// `if a && b { return }`): the disjunction of the incoming edge conditions was lost at the join
+		if lb.curBlock != nil && lb.curBlock.Parent() == lb.f {
+			nj := 0
+			for d := lb.curBlock; d != nil && nj < 4; d = d.Idom() {
+				if len(d.Preds) < 2 || isLoopHeader(d) || len(phisOf(d)) > 0 {
+					continue
+				}
+				// relevance: some incoming edge condition must mention a variable of the current system
+				relevant := false
+				for _, p := range d.Preds {
+					if ifi, ok := lastIf(p); ok && p.Succs[0] != p.Succs[1] {
+						for _, cn := range lb.condFacts(ifi.Cond, p.Succs[0] == d) {
+							for v := range cn.l.c {
+								if seen[v] {
+									relevant = true
+								}
+							}
+						}
+					}
+				}
+				if !relevant {
+					continue
+				}
+				nj++
+				var alts []alt
+				for _, p := range d.Preds {
+					alts = append(alts, alt{lb.edgeFacts(p, d), subst})
+				}
+				splits = append(splits, alts)
 			}
 		}
 		proved := false
@@ -1969,12 +2117,12 @@ func (lb *LB) loopUpperInvariants(phi *ssa.Phi) []cons {
 			if h.Dominates(pred) {
 				// step: hypothesis phi <= L
 				facts := append(lb.edgeFacts(pred, h), goal)
-				if !lb.proveWith([]cons{g}, append(facts, lb.extra...), map[lvar]lin{}, 2) {
+				if !lb.proveAtBlock(pred, []cons{g}, append(facts, lb.extra...), 2) {
 					ok = false
 					break
 				}
 			} else {
-				if !lb.proveWith([]cons{g}, append(lb.edgeFacts(pred, h), lb.extra...), map[lvar]lin{}, 2) {
+				if !lb.proveAtBlock(pred, []cons{g}, append(lb.edgeFacts(pred, h), lb.extra...), 2) {
 					ok = false
 					break
 				}
@@ -2078,6 +2226,9 @@ func loadRep(v ssa.Value) ssa.Value {
 }
 
 var lbSite bool
+
+// lbOvfMode: LBs created by bidx and the C18 rules treat 64-bit arithmetic as possibly overflowing
+var lbOvfMode bool
 var lbDumpFn = os.Getenv("GMSMCHECK_LBFUNC")
 var lbDump = os.Getenv("GMSMCHECK_LBDUMP") != ""
 
@@ -2345,14 +2496,23 @@ var repoIntContracts = map[string]intContract{}
 
 func init() {
 	repoIntContracts["x509.readObject"] = intContract{
-		desc:       "on success: 0 <= offset < len(ber) and next offset >= offset+2",
+		desc:       "on success: 0 <= offset < len(ber) and offset+2 <= next offset <= len(ber)",
 		errIndex:   2,
 		intResults: []int{1},
 		facts: func(lb *LB, arg func(i int) ssa.Value, res func(i int) lin) []cons {
 			off, n := lb.linOf(arg(1)), lb.lenLin(arg(0))
-			return []cons{ge(off, linConst(0)), le(off, n.addScaled(linConst(1), -1)), ge(res(1), off.addScaled(linConst(2), 1))}
+			return []cons{ge(off, linConst(0)), le(off, n.addScaled(linConst(1), -1)), ge(res(1), off.addScaled(linConst(2), 1)), le(res(1), n)}
 		},
 		justifiedBy: "B-CONTRACT obligations on x509.readObject",
+	}
+	repoIntContracts["x509.isIndefiniteTermination"] = intContract{
+		desc:     "on success: 0 <= offset and offset+2 <= len(ber)",
+		errIndex: 1,
+		facts: func(lb *LB, arg func(i int) ssa.Value, res func(i int) lin) []cons {
+			off, n := lb.linOf(arg(1)), lb.lenLin(arg(0))
+			return []cons{ge(off, linConst(0)), le(off.addScaled(linConst(2), 1), n)}
+		},
+		justifiedBy: "B-CONTRACT obligations on x509.isIndefiniteTermination",
 	}
 }
 
@@ -2441,7 +2601,7 @@ func (lb *LB) loopLowerInvariant(phi *ssa.Phi) (lin, bool) {
 			continue
 		}
 		facts := append(lb.edgeFacts(p, h), ge(me, L))
-		if !lb.proveWith([]cons{ge(lb.linOf(e), L)}, append(facts, lb.extra...), map[lvar]lin{}, 2) {
+		if !lb.proveAtBlock(p, []cons{ge(lb.linOf(e), L)}, append(facts, lb.extra...), 2) {
 			ok = false
 			break
 		}
@@ -2609,4 +2769,311 @@ func (lb *LB) constOf(v ssa.Value) (int64, bool) {
 		return l.k, true
 	}
 	return 0, false
+}
+
+// smallAdd: x + k / k + x with a small constant k and an operand that is a length, an index below a length, a
+// byte or a loop counter need no overflow proof obligation of their own when the other operand is provably
+// bounded by the address-space axiom; to keep the cost down only the syntactically obvious cases are skipped:
+// an operand that is len/cap(...) or a narrower unsigned value.
+var smallBusy = map[*ssa.Phi]bool{}
+
+func (lb *LB) smallAdd(x *ssa.BinOp) bool {
+	small := func(v ssa.Value) bool {
+		if k, ok := constInt(v); ok {
+			return k > -(1<<40) && k < 1<<40
+		}
+		switch y := v.(type) {
+		case *ssa.Call:
+			if bi, ok := y.Call.Value.(*ssa.Builtin); ok && (bi.Name() == "len" || bi.Name() == "cap") {
+				return true
+			}
+		case *ssa.Convert:
+			if sb, su, ok := intKind(y.X.Type()); ok && su && sb <= 32 {
+				return true
+			}
+		}
+		return false
+	}
+	if small(x.X) && small(x.Y) {
+		return true
+	}
+	// a loop counter: phi + k (k a small constant) where every back edge of the loop-header phi adds a small
+	// non-negative constant and the entry value is small: the counter is bounded by the number of iterations
+	// executed so far, and 2^62 iterations do not happen
+	counter := func(v ssa.Value) bool {
+		phi, ok := v.(*ssa.Phi)
+		if !ok || !isLoopHeader(phi.Block()) {
+			return false
+		}
+		h := phi.Block()
+		for i, e := range phi.Edges {
+			if h.Dominates(h.Preds[i]) {
+				a := affineOf(e)
+				if len(a.coef) != 1 || a.coef[phi] != 1 || a.k < 0 || a.k > 1<<20 {
+					return false
+				}
+			} else if !small(e) {
+				// entry value: another counter, or a value provably far below the int64 range
+				if p2, ok := e.(*ssa.Phi); ok && p2 != phi {
+					continue
+				}
+				if smallBusy[phi] {
+					return false
+				}
+				smallBusy[phi] = true
+				ok := lb.proveAtBlock(h.Preds[i], []cons{le(lb.linOf(e), linConst(1<<49)), ge(lb.linOf(e), linConst(-(1 << 49)))}, append(lb.branchFacts(h.Preds[i]), lb.extra...), 2)
+				delete(smallBusy, phi)
+				if !ok {
+					return false
+				}
+			}
+		}
+		return true
+	}
+	if k, ok := constInt(x.Y); ok && k >= -(1<<20) && k <= 1<<20 && counter(x.X) {
+		return true
+	}
+	if k, ok := constInt(x.X); ok && k >= -(1<<20) && k <= 1<<20 && counter(x.Y) {
+		return true
+	}
+	return false
+}
+
+// accumBound: acc = acc*K + v in a loop that runs at most T times (an index range over a slice of provable length
+// <= T), acc starting at c0 >= 0 and 0 <= v <= V: acc <= c0*K^T + V*(K^T-1)/(K-1). (Mathematical values; the bound
+// is only reported when it is far below 2^63, so no wrap-around can have happened on the way.)
+var accumBusy = map[*ssa.Phi]bool{}
+
+var accumCache = map[*ssa.Phi]int64{}
+
+func (lb *LB) accumBound(phi *ssa.Phi) (int64, bool) {
+	if b, ok := accumCache[phi]; ok {
+		return b, b >= 0
+	}
+	if accumBusy[phi] {
+		return 0, false
+	}
+	accumBusy[phi] = true
+	defer delete(accumBusy, phi)
+	b, ok := lb.accumBound1(phi)
+	if !ok {
+		b = -1
+	}
+	accumCache[phi] = b
+	return b, ok
+}
+
+func (lb *LB) accumBound1(phi *ssa.Phi) (int64, bool) {
+	h := phi.Block()
+	if len(phi.Edges) != 2 || !isLoopHeader(h) {
+		return 0, false
+	}
+	var c0 int64 = -1
+	var back ssa.Value
+	for i, e := range phi.Edges {
+		if h.Dominates(h.Preds[i]) {
+			back = e
+		} else if k, ok := constInt(e); ok && k >= 0 {
+			c0 = k
+		}
+	}
+	if back == nil || c0 < 0 {
+		return 0, false
+	}
+	// back = phi*K + v  |  phi<<s + v  |  v + phi*K
+	add, ok := back.(*ssa.BinOp)
+	if !ok || (add.Op != token.ADD && add.Op != token.OR) {
+		return 0, false
+	}
+	var mulSide, vSide ssa.Value
+	for _, pr := range [][2]ssa.Value{{add.X, add.Y}, {add.Y, add.X}} {
+		if m, ok := pr[0].(*ssa.BinOp); ok && (m.Op == token.MUL || m.Op == token.SHL) && (m.X == ssa.Value(phi) || m.Y == ssa.Value(phi)) {
+			mulSide, vSide = m, pr[1]
+		}
+	}
+	if mulSide == nil {
+		return 0, false
+	}
+	m := mulSide.(*ssa.BinOp)
+	var K int64
+	if m.Op == token.MUL {
+		other := m.Y
+		if m.Y == ssa.Value(phi) {
+			other = m.X
+		}
+		k, ok := constInt(other)
+		if !ok || k < 2 || k > 1<<16 {
+			return 0, false
+		}
+		K = k
+	} else {
+		if m.X != ssa.Value(phi) {
+			return 0, false
+		}
+		s, ok := constInt(m.Y)
+		if !ok || s < 1 || s > 16 {
+			return 0, false
+		}
+		K = 1 << uint(s)
+	}
+	// 0 <= v <= V from the type of the (converted) operand
+	var V int64 = -1
+	vv := vSide
+	for {
+		if cv, ok := vv.(*ssa.Convert); ok {
+			if sb, su, ok := intKind(cv.X.Type()); ok && su && sb <= 16 {
+				V = int64(1)<<uint(sb) - 1
+				break
+			}
+			vv = cv.X
+			continue
+		}
+		break
+	}
+	if V < 0 || (add.Op == token.OR && V >= K) {
+		return 0, false
+	}
+	// trip count: the header's range index r (init -1, +1) is compared with len(S); T = proven bound on len(S)
+	var T int64 = -1
+	for _, q := range phisOf(h) {
+		iv, ok := inductionOf(q)
+		if !ok || iv.init != -1 || iv.step != 1 {
+			continue
+		}
+		ifi, ok := lastIf(h)
+		if !ok {
+			continue
+		}
+		cmp, ok := ifi.Cond.(*ssa.BinOp)
+		if !ok || cmp.Op != token.LSS {
+			continue
+		}
+		inc, ok := cmp.X.(*ssa.BinOp)
+		if !ok || inc.Op != token.ADD || inc.X != ssa.Value(q) {
+			continue
+		}
+		n := lb.linOf(cmp.Y)
+		for _, t := range []int64{1, 2, 3, 4, 5, 6, 7, 8} {
+			var pred *ssa.BasicBlock
+			for i := range h.Preds {
+				if !h.Dominates(h.Preds[i]) {
+					pred = h.Preds[i]
+				}
+			}
+			if pred != nil && lb.proveAtBlock(pred, []cons{le(n, linConst(t))}, append(lb.branchFacts(pred), lb.extra...), 2) {
+				T = t
+				break
+			}
+		}
+	}
+	if lbDump && strings.Contains(fname(lb.f), lbDumpFn) {
+		dbg("accumBound %s: K=%d V=%d c0=%d T=%d", phi.Comment, K, V, c0, T)
+	}
+	if T < 0 {
+		return 0, false
+	}
+	// bound = c0*K^T + V*(K^T-1)/(K-1), refuse when above 2^60
+	pow := int64(1)
+	for i := int64(0); i < T; i++ {
+		if pow > (1<<60)/K {
+			return 0, false
+		}
+		pow *= K
+	}
+	geo := (pow - 1) / (K - 1)
+	if c0 > 0 && pow > (1<<60)/(c0+1) {
+		return 0, false
+	}
+	if V > 0 && geo > (1<<60)/V {
+		return 0, false
+	}
+	b := c0*pow + V*geo
+	if b > 1<<60 {
+		return 0, false
+	}
+	return b, true
+}
+
+// joinUpper: upper bounds of a non-loop phi: a bound L (an operand of a comparison that guards one of the incoming
+// paths) such that every incoming value is <= L under the conditions of its own edge.
+var joinUpperCache = map[*ssa.Phi][]cons{}
+var joinUpperBusy = map[*ssa.Phi]bool{}
+
+func (lb *LB) joinUpper(phi *ssa.Phi) []cons {
+	if r, ok := joinUpperCache[phi]; ok {
+		return r
+	}
+	if joinUpperBusy[phi] {
+		return nil
+	}
+	joinUpperBusy[phi] = true
+	defer delete(joinUpperBusy, phi)
+	blk := phi.Block()
+	me := linVar(lvar{0, phi})
+	var cands []lin
+	seen := map[string]bool{}
+	add := func(l lin) {
+		if _, dep := l.c[lvar{0, phi}]; dep {
+			return
+		}
+		k := linString(l)
+		if !seen[k] {
+			seen[k] = true
+			cands = append(cands, l)
+		}
+	}
+	for i := range phi.Edges {
+		p := blk.Preds[i]
+		for d := p; d != nil; d = d.Idom() {
+			ifi, ok := lastIf(d)
+			if !ok {
+				continue
+			}
+			bo, ok := ifi.Cond.(*ssa.BinOp)
+			if !ok {
+				continue
+			}
+			switch bo.Op {
+			case token.LSS, token.LEQ, token.GTR, token.GEQ:
+				if _, _, isInt := intKind(bo.X.Type()); isInt {
+					for _, side := range []ssa.Value{bo.X, bo.Y} {
+						l := lb.linOf(side)
+						add(l)
+						add(l.addScaled(linConst(1), -1))
+					}
+				}
+			}
+			if len(cands) > 24 {
+				break
+			}
+		}
+	}
+	var out []cons
+	for _, L := range cands {
+		ok := true
+		for i, e := range phi.Edges {
+			p := blk.Preds[i]
+			if !lb.proveAtBlock(p, []cons{le(lb.linOf(e), L)}, append(lb.edgeFacts(p, blk), lb.extra...), 3) {
+				ok = false
+				break
+			}
+		}
+		if ok {
+			out = append(out, le(me, L))
+			if len(out) >= 3 {
+				break
+			}
+		}
+	}
+	joinUpperCache[phi] = out
+	return out
+}
+
+// proveAtBlock: proveWith for an obligation located at the end of block b (an edge leaving b): the location
+// governs the location-dependent case splits (joins on the dominator chain, error-tested callee paths)
+func (lb *LB) proveAtBlock(b *ssa.BasicBlock, goals []cons, facts []cons, depth int) bool {
+	saved := lb.curBlock
+	lb.curBlock = b
+	defer func() { lb.curBlock = saved }()
+	return lb.proveWith(goals, facts, map[lvar]lin{}, depth)
 }
